@@ -1,401 +1,5 @@
-(* Pdu_dec_proofs.v — C01 decode conformance: the factories' _helper applied to the
-   specification's PDU of a message returns the matching class with the wire's field values. *)
-From PM.theories Require Import Base Struct PduCls PduSpec Pdu CorrPdu.
-From PM.Generated Require Import GenPdu.
-From PM.proofs Require Import Struct_proofs Pdu_bits_proofs Pdu_proofs Pdu_more_proofs.
-From Coq Require Import ZifyBool.
-Open Scope string_scope.
-Open Scope list_scope.
-Open Scope Z_scope.
-Ltac Zify.zify_post_hook ::= Z.to_euclidean_division_equations.
-
-(* ---- struct.unpack of the specification's encodings ---------------------------------------- *)
-
-Ltac solve_unpack := intros; apply unpack_pack; pk_simpl; rewrite ?app_nil_r; reflexivity.
-
-Lemma unpack_H a : is_u16 a = true -> unpack true [FH] (u16 a) = Ok [a].
-Proof. solve_unpack. Qed.
-Lemma unpack_HH a b : is_u16 a = true -> is_u16 b = true -> unpack true [FH; FH] (u16 a ++ u16 b) = Ok [a; b].
-Proof. solve_unpack. Qed.
-Lemma unpack_HHH a b c : is_u16 a = true -> is_u16 b = true -> is_u16 c = true ->
-  unpack true [FH; FH; FH] (u16 a ++ u16 b ++ u16 c) = Ok [a; b; c].
-Proof. solve_unpack. Qed.
-Lemma unpack_BBB a b c : is_u8 a = true -> is_u8 b = true -> is_u8 c = true ->
-  unpack true [FB; FB; FB] (u8 a ++ u8 b ++ u8 c) = Ok [a; b; c].
-Proof. solve_unpack. Qed.
-Lemma unpack_HHB a b c : is_u16 a = true -> is_u16 b = true -> is_u8 c = true ->
-  unpack true [FH; FH; FB] (u16 a ++ u16 b ++ u8 c) = Ok [a; b; c].
-Proof. solve_unpack. Qed.
-Lemma unpack_HHHHB a b c d e : is_u16 a = true -> is_u16 b = true -> is_u16 c = true -> is_u16 d = true -> is_u8 e = true ->
-  unpack true [FH; FH; FH; FH; FB] (u16 a ++ u16 b ++ u16 c ++ u16 d ++ u8 e) = Ok [a; b; c; d; e].
-Proof. solve_unpack. Qed.
-
-Lemma rd_be16_u16' v : is_u16 v = true -> rd_be16 (Z.to_N (v / 256)) (Z.to_N (v mod 256)) = v.
-Proof. intros H. unfold is_u16 in H. unfold rd_be16. rewrite !Z2N.id by lia. lia. Qed.
-
-Lemma read_words_words l : all_u16 l = true -> read_words (words l) (len l) = Ok l.
-Proof.
-  induction l as [|v t IH]; intros H; [reflexivity|].
-  cbn [all_u16 forallb] in H. apply andb_true_iff in H as [Hv Ht].
-  unfold words. cbn [flat_map]. unfold u16 at 1. cbn [app read_words].
-  replace (len (v :: t) <=? 0) with false by (unfold len; cbn [length]; lia).
-  replace (len (v :: t) - 1) with (len t) by (unfold len; cbn [length]; lia).
-  fold (words t). rewrite IH by exact Ht. cbn [bind]. now rewrite rd_be16_u16'.
-Qed.
-
-Lemma take_idx_u8s l : all_u8 l = true -> take_idx (length l) (flat_map u8 l) = Ok l.
-Proof.
-  induction l as [|v t IH]; intros H; [reflexivity|].
-  cbn [all_u8 forallb] in H. apply andb_true_iff in H as [Hv Ht].
-  cbn [flat_map length]. unfold u8 at 1. cbn [app take_idx]. rewrite IH by exact Ht. cbn [bind].
-  unfold is_u8 in Hv. rewrite Z2N.id by lia. reflexivity.
-Qed.
-
-Lemma words_length l : length (words l) = (2 * length l)%nat.
-Proof. induction l as [|v t IH]; [reflexivity|]. unfold words in *. cbn [flat_map]. unfold u16 at 1. cbn [app length]. lia. Qed.
-
-Lemma zl_eqb_refl l : zl_eqb l l = true.
-Proof. induction l as [|v t IH]; [reflexivity|]. cbn. now rewrite Z.eqb_refl, IH. Qed.
-Lemma bl_eqb_refl l : list_eqb beqb l l = true.
-Proof. induction l as [|v t IH]; [reflexivity|]. cbn. unfold beqb at 1. now rewrite Bool.eqb_reflx, IH. Qed.
-
-Lemma spec_unpack_length bs : length (spec_unpack_bits bs) = (8 * length bs)%nat.
-Proof. induction bs as [|b t IH]; [reflexivity|]. unfold spec_unpack_bits in *. cbn [flat_map]. rewrite app_length, IH. cbn [byte_bits length]. lia. Qed.
-
-(* ---- evaluation helpers ---------------------------------------------------------------------- *)
-
-Ltac ev t := let x := eval vm_compute in t in change t with x.
-Ltac tab2 :=
-  repeat match goal with
-  | |- context [lookup_fc ?t ?k] => ev (lookup_fc t k)
-  | |- context [fresh ?c] => is_constructor c; ev (fresh c)
-  | |- context [?k >? client_exc_threshold] => ev (k >? client_exc_threshold)
-  end.
-
-Ltac dec_open :=
-  unfold py_decode, msg_is_request, py_decode_server, py_decode_client, spec_pdu;
-  cbn [app data0 bind skipn Z.of_N]; tab2; cbv beta iota; tab2; cbn [decode_into bind].
-
-Lemma bslice_prefix (x rest : bytes) n : length x = n -> bslice (x ++ rest) 0 n = x.
-Proof. intros <-. unfold bslice. cbn [skipn]. rewrite Nat.sub_0_r, firstn_app, Nat.sub_diag, firstn_all. cbn. apply app_nil_r. Qed.
-Lemma skipn_prefix (x rest : bytes) n : length x = n -> skipn n (x ++ rest) = rest.
-Proof. intros <-. rewrite skipn_app, Nat.sub_diag, skipn_all. reflexivity. Qed.
-
-Lemma at2_ac a b K : at2 [("address", a); ("count", b)] "address" "count" K = Some (K a b).
-Proof. reflexivity. Qed.
-Lemma at2_av a b K : at2 [("address", a); ("value", b)] "address" "value" K = Some (K a b).
-Proof. reflexivity. Qed.
-Lemma at3_mask a b c K : at3 [("address", a); ("and_mask", b); ("or_mask", c)] "address" "and_mask" "or_mask" K = Some (K a b c).
-Proof. reflexivity. Qed.
-
-Lemma assoc_addr a : assoc_str "address" [("address", a)] = Some a.
-Proof. reflexivity. Qed.
-
-Definition dec_ok (m : msg) : Prop :=
-  exists o d, py_decode (msg_is_request m) (spec_pdu m) = Ok o /\ class_of o = spec_class m /\ abs o = Some d /\ msg_matches m d = true.
-
-(* close a goal [abs o = Some m /\ msg_matches m m = true] where abs_raw o computes to Some m *)
-Ltac close_abs Hwf :=
-  split; [unfold abs; cbn [abs_raw]; rewrite ?at2_ac, ?at2_av, ?at3_mask, ?assoc_addr; cbv beta iota; rewrite Hwf; reflexivity
-         |cbn [msg_matches]; rewrite ?Z.eqb_refl, ?zl_eqb_refl, ?bl_eqb_refl; unfold beqb; rewrite ?Bool.eqb_reflx; reflexivity].
-
-Ltac cls_goal :=
-  cbn [class_of spec_class];
-  try match goal with
-      | E : spec_response_subclass _ _ = _ |- _ => rewrite E
-      | E : spec_request_subclass _ _ = _ |- _ => rewrite E
-      end; reflexivity.
-
-Ltac fixed_dec Hwf :=
-  let H := fresh "H" in
-  pose proof Hwf as H; cbn [spec_wf] in H; split_andb H;
-  dec_open; unfold dec_fixed; tab; cbn [bind];
-  rewrite ?unpack_HH, ?unpack_HHH, ?unpack_H by assumption; cbn [bind combine];
-  unfold reclass; cbn [obj_sub class_of];
-  eexists; eexists; split; [reflexivity|split; [cls_goal|]; close_abs Hwf].
-
-Lemma dec_ReadCoilsReq a q : spec_wf (MReadCoilsReq a q) = true -> dec_ok (MReadCoilsReq a q).
-Proof. intros Hwf. unfold dec_ok. fixed_dec Hwf. Qed.
-Lemma dec_ReadDiscreteReq a q : spec_wf (MReadDiscreteReq a q) = true -> dec_ok (MReadDiscreteReq a q).
-Proof. intros Hwf. unfold dec_ok. fixed_dec Hwf. Qed.
-Lemma dec_ReadHoldingReq a q : spec_wf (MReadHoldingReq a q) = true -> dec_ok (MReadHoldingReq a q).
-Proof. intros Hwf. unfold dec_ok. fixed_dec Hwf. Qed.
-Lemma dec_ReadInputReq a q : spec_wf (MReadInputReq a q) = true -> dec_ok (MReadInputReq a q).
-Proof. intros Hwf. unfold dec_ok. fixed_dec Hwf. Qed.
-Lemma dec_WriteCoilsRsp a q : spec_wf (MWriteCoilsRsp a q) = true -> dec_ok (MWriteCoilsRsp a q).
-Proof. intros Hwf. unfold dec_ok. fixed_dec Hwf. Qed.
-Lemma dec_WriteRegsRsp a q : spec_wf (MWriteRegsRsp a q) = true -> dec_ok (MWriteRegsRsp a q).
-Proof. intros Hwf. unfold dec_ok. fixed_dec Hwf. Qed.
-Lemma dec_WriteRegRsp a q : spec_wf (MWriteRegRsp a q) = true -> dec_ok (MWriteRegRsp a q).
-Proof. intros Hwf. unfold dec_ok. fixed_dec Hwf. Qed.
-Lemma dec_MaskWriteReq a x y : spec_wf (MMaskWriteReq a x y) = true -> dec_ok (MMaskWriteReq a x y).
-Proof. intros Hwf. unfold dec_ok. fixed_dec Hwf. Qed.
-Lemma dec_MaskWriteRsp a x y : spec_wf (MMaskWriteRsp a x y) = true -> dec_ok (MMaskWriteRsp a x y).
-Proof. intros Hwf. unfold dec_ok. fixed_dec Hwf. Qed.
-Lemma dec_ReadFifoReq a : spec_wf (MReadFifoReq a) = true -> dec_ok (MReadFifoReq a).
-Proof. intros Hwf. unfold dec_ok. fixed_dec Hwf. Qed.
-
-(* ---- the remaining single-struct kinds --------------------------------------------------------- *)
-
-Lemma dec_ReadDevIdReq c o : spec_wf (MReadDevIdReq c o) = true -> dec_ok (MReadDevIdReq c o).
-Proof.
-  intros Hwf. unfold dec_ok. pose proof Hwf as H. cbn [spec_wf] in H. split_andb H.
-  dec_open. unfold dec_fixed. tab. cbn [bind].
-  change ([14%N] ++ u8 c ++ u8 o) with (u8 14 ++ u8 c ++ u8 o) || change (14%N :: u8 c ++ u8 o) with (u8 14 ++ u8 c ++ u8 o).
-  rewrite unpack_BBB by (assumption || reflexivity). cbn [bind combine].
-  unfold reclass. cbn [obj_sub class_of]. change (assoc_str "sub_function_code" _) with (Some 14). tab.
-  cbv beta iota. match goal with |- context [lookup_sub ?t ?f ?s] => destruct (lookup_sub t f s) end; cbn [set_class];
-  (eexists; eexists; split; [reflexivity|split; [cls_goal|]]; split;
-  [ unfold abs; cbn [abs_raw]; change (assoc_str "sub_function_code" _) with (Some 14); cbv beta iota;
-    change (14 =? 14) with true; cbv beta iota;
-    change (at2 _ "read_code" "object_id" MReadDevIdReq) with (Some (MReadDevIdReq c o)); cbv beta iota; rewrite Hwf; reflexivity
-  | cbn [msg_matches]; now rewrite !Z.eqb_refl]).
-Qed.
-
-Lemma unpack_on_word b : unpack true [FH; FH] (u16 0 ++ on_word b) = Ok [0; if b then 65280 else 0].
-Proof. destruct b; reflexivity. Qed.
-
-Lemma dec_WriteCoil_gen a on :
-  is_u16 a = true -> unpack true [FH; FH] (u16 a ++ on_word on) = Ok [a; coil_word on].
-Proof.
-  intros Ha. rewrite <- coil_word_spec. apply unpack_HH; [exact Ha|apply coil_word_u16].
-Qed.
-
-Lemma coil_word_on v : (coil_word v =? status_on) = v.
-Proof. destruct v; reflexivity. Qed.
-
-Lemma dec_WriteCoilReq a on : spec_wf (MWriteCoilReq a on) = true -> dec_ok (MWriteCoilReq a on).
-Proof.
-  intros Hwf. unfold dec_ok. pose proof Hwf as H. cbn [spec_wf] in H.
-  dec_open. unfold upk. rewrite dec_WriteCoil_gen by assumption. cbn [bind]. rewrite coil_word_on.
-  unfold reclass; cbn [obj_sub class_of]. eexists; eexists; split; [reflexivity|split; [cls_goal|]; close_abs Hwf].
-Qed.
-Lemma dec_WriteCoilRsp a on : spec_wf (MWriteCoilRsp a on) = true -> dec_ok (MWriteCoilRsp a on).
-Proof.
-  intros Hwf. unfold dec_ok. pose proof Hwf as H. cbn [spec_wf] in H.
-  dec_open. unfold upk. rewrite dec_WriteCoil_gen by assumption. cbn [bind]. rewrite coil_word_on.
-  unfold reclass; cbn [obj_sub class_of]. eexists; eexists; split; [reflexivity|split; [cls_goal|]; close_abs Hwf].
-Qed.
-
-Lemma dec_WriteRegReq a v : spec_wf (MWriteRegReq a v) = true -> dec_ok (MWriteRegReq a v).
-Proof.
-  intros Hwf. unfold dec_ok. pose proof Hwf as H. cbn [spec_wf] in H. split_andb H.
-  dec_open. unfold upk. rewrite unpack_HH by assumption. cbn [bind].
-  unfold reclass; cbn [obj_sub class_of]. eexists; eexists; split; [reflexivity|split; [cls_goal|]; close_abs Hwf].
-Qed.
-
-Lemma dec_empty_reqs :
-  dec_ok MReadExcStatusReq /\ dec_ok MCommEventCounterReq /\ dec_ok MCommEventLogReq /\ dec_ok MReportSlaveIdReq.
-Proof. repeat split; unfold dec_ok; eexists; eexists; (split; [vm_compute; reflexivity|split; [reflexivity|split; vm_compute; reflexivity]]). Qed.
-
-Lemma dec_ReadExcStatusRsp s : spec_wf (MReadExcStatusRsp s) = true -> dec_ok (MReadExcStatusRsp s).
-Proof.
-  intros Hwf. unfold dec_ok. pose proof Hwf as H. cbn [spec_wf] in H. unfold is_u8 in H.
-  dec_open. unfold u8. cbn [data0 bind]. rewrite Z2N.id by lia.
-  unfold reclass; cbn [obj_sub class_of]. eexists; eexists; split; [reflexivity|split; [cls_goal|]; close_abs Hwf].
-Qed.
-
-Lemma unpack_busy b c : is_u16 c = true ->
-  unpack true [FH; FH] (busy_word b ++ u16 c) = Ok [if b then 65535 else 0; c].
-Proof.
-  intros Hc. replace (busy_word b) with (u16 (if b then 65535 else 0)) by (destruct b; reflexivity).
-  apply unpack_HH; [destruct b; reflexivity|exact Hc].
-Qed.
-
-Lemma dec_CommEventCounterRsp b c : spec_wf (MCommEventCounterRsp b c) = true -> dec_ok (MCommEventCounterRsp b c).
-Proof.
-  intros Hwf. unfold dec_ok. pose proof Hwf as H. cbn [spec_wf] in H.
-  dec_open. unfold upk. rewrite unpack_busy by assumption. cbn [bind].
-  unfold reclass; cbn [obj_sub class_of]. eexists; eexists; split; [reflexivity|split; [cls_goal|]].
-  split; [unfold abs; cbn [abs_raw]; destruct b; cbn [negb]; change (65535 =? status_ready) with false;
-          change (0 =? status_ready) with true; cbn [negb]; rewrite Hwf; reflexivity
-         |destruct b; cbn [msg_matches]; rewrite Z.eqb_refl; reflexivity].
-Qed.
-
-Lemma dec_Exception fc code : spec_wf (MException fc code) = true -> dec_ok (MException fc code).
-Proof.
-  intros Hwf. unfold dec_ok. pose proof Hwf as H. cbn [spec_wf] in H. split_andb H. unfold is_u8 in H0.
-  unfold py_decode, msg_is_request, spec_pdu.
-  rewrite exception_decode by lia. replace (fc + 128 - 128) with fc by lia. rewrite Z2N.id by lia.
-  eexists; eexists; split; [reflexivity|split; [cls_goal|]].
-  split; [unfold abs; cbn [abs_raw]; rewrite Z.eqb_refl, Hwf; reflexivity|cbn [msg_matches]; now rewrite !Z.eqb_refl].
-Qed.
-
-(* ---- list-carrying kinds ------------------------------------------------------------------------ *)
-
-Lemma range_len_2 k n : 0 <= n -> range_len k (k + 2 * n) 2 = n.
-Proof. intros H. unfold range_len. destruct (k + 2 * n <=? k) eqn:E; lia. Qed.
-Lemma range_len_2' n : 0 <= n -> range_len 1 (2 * n + 1) 2 = n.
-Proof. intros H. replace (2 * n + 1) with (1 + 2 * n) by lia. now apply range_len_2. Qed.
-Lemma range_len_2'' n : 0 <= n -> range_len 1 (2 * n) 2 = n.
-Proof. intros H. unfold range_len. destruct (2 * n <=? 1) eqn:E; lia. Qed.
-Lemma len_nonneg {A} (l : list A) : 0 <= len l.
-Proof. unfold len. lia. Qed.
-
-Ltac regs_rsp Hwf rs :=
-  let H := fresh "H" in
-  pose proof Hwf as H; cbn [spec_wf] in H; split_andb H;
-  dec_open; unfold u8; cbn [app data0 bind skipn]; tab;
-  (rewrite Z2N.id by (pose proof (len_nonneg rs); lia));
-  rewrite ?range_len_2', ?range_len_2'' by apply len_nonneg;
-  rewrite read_words_words by assumption; cbn [bind app];
-  unfold reclass; cbn [obj_sub class_of];
-  eexists; eexists; split; [reflexivity|split; [cls_goal|]; close_abs Hwf].
-
-Lemma dec_ReadHoldingRsp rs : spec_wf (MReadHoldingRsp rs) = true -> dec_ok (MReadHoldingRsp rs).
-Proof. intros Hwf. unfold dec_ok. regs_rsp Hwf rs. Qed.
-Lemma dec_ReadInputRsp rs : spec_wf (MReadInputRsp rs) = true -> dec_ok (MReadInputRsp rs).
-Proof. intros Hwf. unfold dec_ok. regs_rsp Hwf rs. Qed.
-Lemma dec_ReadWriteRegsRsp rs : spec_wf (MReadWriteRegsRsp rs) = true -> dec_ok (MReadWriteRegsRsp rs).
-Proof. intros Hwf. unfold dec_ok. regs_rsp Hwf rs. Qed.
-
-Lemma padded_wf cs : is_u8 (bit_byte_count (len cs)) = true ->
-  is_u8 (bit_byte_count (len (spec_unpack_bits (spec_pack_bits cs)))) = true.
-Proof.
-  intros H. unfold len. rewrite spec_unpack_length. pose proof (spec_pack_bits_length cs) as Hl.
-  unfold len in H. rewrite <- Hl in H. unfold bit_byte_count, is_u8 in *. lia.
-Qed.
-
-Ltac bits_rsp Hwf cs :=
-  let H := fresh "H" in
-  pose proof Hwf as H; cbn [spec_wf] in H;
-  dec_open; unfold u8; cbn [app data0 bind skipn]; rewrite py_unpack_spec;
-  unfold reclass; cbn [obj_sub class_of];
-  eexists; eexists; split; [reflexivity|split; [cls_goal|]];
-  split; [unfold abs; cbn [abs_raw spec_wf]; rewrite padded_wf by exact H; reflexivity
-         |cbn [msg_matches]; apply unpack_pack_upto_pad].
-
-Lemma dec_ReadCoilsRsp cs : spec_wf (MReadCoilsRsp cs) = true -> dec_ok (MReadCoilsRsp cs).
-Proof. intros Hwf. unfold dec_ok. bits_rsp Hwf cs. Qed.
-Lemma dec_ReadDiscreteRsp cs : spec_wf (MReadDiscreteRsp cs) = true -> dec_ok (MReadDiscreteRsp cs).
-Proof. intros Hwf. unfold dec_ok. bits_rsp Hwf cs. Qed.
-
-Lemma dec_WriteCoilsReq a cs : spec_wf (MWriteCoilsReq a cs) = true -> dec_ok (MWriteCoilsReq a cs).
-Proof.
-  intros Hwf. unfold dec_ok. pose proof Hwf as H. cbn [spec_wf] in H. split_andb H.
-  dec_open.
-  change (u16 a ++ u16 (len cs) ++ u8 (bit_byte_count (len cs)) ++ spec_pack_bits cs)
-    with ((u16 a ++ u16 (len cs) ++ u8 (bit_byte_count (len cs))) ++ spec_pack_bits cs).
-  rewrite bslice_prefix by reflexivity. rewrite skipn_prefix by reflexivity.
-  unfold upk. rewrite unpack_HHB by assumption. cbn [bind].
-  rewrite py_unpack_spec. unfold len at 1. rewrite Nat2Z.id, firstn_unpack_pack.
-  unfold reclass; cbn [obj_sub class_of]. eexists; eexists; split; [reflexivity|split; [cls_goal|]; close_abs Hwf].
-Qed.
-
-Lemma u8_len_u16 {A} (l : list A) : is_u8 (2 * len l) = true -> is_u16 (len l) = true.
-Proof. unfold is_u8, is_u16, len. lia. Qed.
-
-Lemma dec_WriteRegsReq a rs : spec_wf (MWriteRegsReq a rs) = true -> dec_ok (MWriteRegsReq a rs).
-Proof.
-  intros Hwf. unfold dec_ok. pose proof Hwf as H. cbn [spec_wf] in H. split_andb H.
-  pose proof (u8_len_u16 rs H1) as Hl.
-  dec_open.
-  change (u16 a ++ u16 (len rs) ++ u8 (2 * len rs) ++ words rs)
-    with ((u16 a ++ u16 (len rs) ++ u8 (2 * len rs)) ++ words rs).
-  rewrite bslice_prefix by reflexivity. rewrite skipn_prefix by reflexivity.
-  unfold upk. rewrite unpack_HHB by assumption. cbn [bind].
-  replace (len rs * 2 + 5) with (5 + 2 * len rs) by lia. rewrite range_len_2 by apply len_nonneg.
-  rewrite read_words_words by assumption. cbn [bind].
-  unfold reclass; cbn [obj_sub class_of]. eexists; eexists; split; [reflexivity|split; [cls_goal|]].
-  split; [unfold abs; cbn [abs_raw]; change (zlen rs) with (len rs); rewrite !Z.eqb_refl; cbn [andb]; rewrite Hwf; reflexivity
-         |cbn [msg_matches]; now rewrite Z.eqb_refl, zl_eqb_refl].
-Qed.
-
-Lemma dec_ReadWriteRegsReq ra rq wa ws : spec_wf (MReadWriteRegsReq ra rq wa ws) = true -> dec_ok (MReadWriteRegsReq ra rq wa ws).
-Proof.
-  intros Hwf. unfold dec_ok. pose proof Hwf as H. cbn [spec_wf] in H. split_andb H.
-  pose proof (u8_len_u16 ws H1) as Hl.
-  dec_open.
-  change (u16 ra ++ u16 rq ++ u16 wa ++ u16 (len ws) ++ u8 (2 * len ws) ++ words ws)
-    with ((u16 ra ++ u16 rq ++ u16 wa ++ u16 (len ws) ++ u8 (2 * len ws)) ++ words ws).
-  rewrite bslice_prefix by reflexivity. rewrite skipn_prefix by reflexivity.
-  unfold upk. rewrite unpack_HHHHB by assumption. cbn [bind].
-  replace (2 * len ws + 9) with (9 + 2 * len ws) by lia. rewrite range_len_2 by apply len_nonneg.
-  rewrite read_words_words by assumption. cbn [bind].
-  unfold reclass; cbn [obj_sub class_of]. eexists; eexists; split; [reflexivity|split; [cls_goal|]].
-  split; [unfold abs; cbn [abs_raw]; change (zlen ws) with (len ws); rewrite !Z.eqb_refl; cbn [andb]; rewrite Hwf; reflexivity
-         |cbn [msg_matches]; now rewrite !Z.eqb_refl, zl_eqb_refl].
-Qed.
-
-(* ---- diagnostics --------------------------------------------------------------------------------- *)
-
-Lemma resp_subclass_props sub c' : spec_response_subclass 8 sub = Some c' -> fc_of c' = Some 8 /\ is_request c' = false.
-Proof.
-  unfold spec_response_subclass. change (8 =? 8) with true. cbv beta iota.
-  repeat match goal with |- (if ?b then _ else _) = _ -> _ => destruct b; [intros H; injection H as <-; split; reflexivity|] end.
-  discriminate.
-Qed.
-
-Lemma req_subclass_props sub c' : spec_request_subclass 8 sub = Some c' -> fc_of c' = Some 8 /\ is_request c' = true.
-Proof.
-  unfold spec_request_subclass. change (8 =? 8) with true. cbv beta iota.
-  repeat match goal with |- (if ?b then _ else _) = _ -> _ => destruct b; [intros H; injection H as <-; split; reflexivity|] end.
-  discriminate.
-Qed.
-
-Lemma odd_words l : Nat.odd (length (words l)) = false.
-Proof. rewrite words_length, Nat.odd_mul. reflexivity. Qed.
-
-Lemma dec_DiagRsp sub data : spec_wf (MDiagRsp sub data) = true -> dec_ok (MDiagRsp sub data).
-Proof.
-  intros Hwf. unfold dec_ok. pose proof Hwf as H. cbn [spec_wf] in H. split_andb H.
-  dec_open. tab.
-  change (u16 sub ++ words data) with (words (sub :: data)).
-  rewrite odd_words.
-  replace (zlen (words (sub :: data)) / 2) with (len (sub :: data))
-    by (unfold zlen, len; rewrite words_length; lia).
-  rewrite read_words_words by (cbn [all_u16 forallb]; rewrite H; exact H0). cbn [bind].
-  unfold reclass. cbn [obj_sub class_of]. tab. cbv beta iota. rewrite subdispatch_client.
-  destruct (spec_response_subclass 8 sub) as [c'|] eqn:E; cbn [set_class].
-  - destruct (resp_subclass_props sub c' E) as [Hf Hr].
-    eexists; eexists; split; [reflexivity|split; [cls_goal|]].
-    split; [unfold abs; cbn [abs_raw]; rewrite Hf, Hr; cbn [option_eqb]; change (8 =? 8) with true; cbv beta iota; rewrite Hwf; reflexivity
-           |cbn [msg_matches]; now rewrite Z.eqb_refl, zl_eqb_refl].
-  - eexists; eexists; split; [reflexivity|split; [cls_goal|]].
-    split; [unfold abs; cbn [abs_raw]; tab; cbn [option_eqb]; change (8 =? 8) with true; cbv beta iota; rewrite Hwf; reflexivity
-           |cbn [msg_matches]; now rewrite Z.eqb_refl, zl_eqb_refl].
-Qed.
-
-Lemma dec_DiagReq1 sub w : spec_wf (MDiagReq sub [w]) = true -> dec_ok (MDiagReq sub [w]).
-Proof.
-  intros Hwf. unfold dec_ok. pose proof Hwf as H. cbn [spec_wf all_u16 forallb] in H. split_andb H.
-  dec_open. tab. unfold words. cbn [flat_map]. rewrite app_nil_r.
-  unfold upk. rewrite unpack_HH by assumption. cbn [bind].
-  unfold reclass. cbn [obj_sub class_of]. tab. cbv beta iota. rewrite subdispatch_server.
-  destruct (spec_request_subclass 8 sub) as [c'|] eqn:E; cbn [set_class].
-  - destruct (req_subclass_props sub c' E) as [Hf Hr].
-    eexists; eexists; split; [reflexivity|split; [cls_goal|]].
-    split; [unfold abs; cbn [abs_raw]; rewrite Hf, Hr; cbn [option_eqb]; change (8 =? 8) with true; cbv beta iota; rewrite Hwf; reflexivity
-           |cbn [msg_matches]; now rewrite Z.eqb_refl, zl_eqb_refl].
-  - eexists; eexists; split; [reflexivity|split; [cls_goal|]].
-    split; [unfold abs; cbn [abs_raw]; tab; cbn [option_eqb]; change (8 =? 8) with true; cbv beta iota; rewrite Hwf; reflexivity
-           |cbn [msg_matches]; now rewrite Z.eqb_refl, zl_eqb_refl].
-Qed.
-
-(* ---- comm event log ---------------------------------------------------------------------------- *)
-
-Lemma unpack_busy1 b : unpack true [FH] (busy_word b) = Ok [if b then 65535 else 0].
-Proof. destruct b; reflexivity. Qed.
-
-Lemma dec_CommEventLogRsp b ec mc evs :
-  spec_wf (MCommEventLogRsp b ec mc evs) = true -> dec_ok (MCommEventLogRsp b ec mc evs).
-Proof.
-  intros Hwf. unfold dec_ok. pose proof Hwf as H. cbn [spec_wf] in H. split_andb H.
-  dec_open.
-  assert (Hd : u8 (6 + len evs) ++ busy_word b ++ u16 ec ++ u16 mc ++ flat_map u8 evs =
-               Z.to_N (6 + len evs) :: (busy_word b ++ u16 ec ++ u16 mc) ++ flat_map u8 evs).
-  { unfold u8. cbn [app]. rewrite <- !app_assoc. reflexivity. }
-  rewrite Hd. clear Hd. cbn [data0 bind]. rewrite Z2N.id by (pose proof (len_nonneg evs); lia).
-  assert (H13 : forall x r, bslice (x :: (busy_word b ++ u16 ec ++ u16 mc) ++ r) 1 3 = busy_word b) by (intros; destruct b; reflexivity).
-  assert (H35 : forall x r, bslice (x :: (busy_word b ++ u16 ec ++ u16 mc) ++ r) 3 5 = u16 ec) by (intros; destruct b; reflexivity).
-  assert (H57 : forall x r, bslice (x :: (busy_word b ++ u16 ec ++ u16 mc) ++ r) 5 7 = u16 mc) by (intros; destruct b; reflexivity).
-  assert (H7 : forall x r, skipn 7 (x :: (busy_word b ++ u16 ec ++ u16 mc) ++ r) = r) by (intros; destruct b; reflexivity).
-  rewrite H13, H35, H57, H7. unfold upk. rewrite unpack_busy1, !unpack_H by assumption. cbn [bind].
-  replace (range_len 7 (6 + len evs + 1) 1) with (len evs) by (unfold range_len; pose proof (len_nonneg evs); destruct (6 + len evs + 1 <=? 7) eqn:E; lia).
-  unfold len at 1. rewrite Nat2Z.id, take_idx_u8s by assumption. cbn [bind].
-  unfold reclass; cbn [obj_sub class_of]. eexists; eexists; split; [reflexivity|split; [cls_goal|]].
-  split; [unfold abs; cbn [abs_raw]; destruct b; change (65535 =? status_ready) with false;
-          change (0 =? status_ready) with true; cbn [negb]; rewrite Hwf; reflexivity
-         |destruct b; cbn [msg_matches]; rewrite !Z.eqb_refl, zl_eqb_refl; reflexivity].
-Qed.
-
+(* Pdu_dec_proofs.v — C01 decode conformance, entry point for importers.
+   The lemmas live in Pdu_dec1_proofs.v (single-struct and list kinds) and Pdu_dec2_proofs.v
+   (file records, device identification, the theorem [decode_conforms], explicit decoded objects and
+   wire-derived attributes); both are re-exported here. *)
+From PM.proofs Require Export Pdu_dec1_proofs Pdu_dec2_proofs.
